@@ -249,12 +249,33 @@ theorem valKeep_nn {ex : Option Nat} (a : Agent) (now : Nat) : NoNew ex a (valKe
   · exact h1.trans (keepalive_nn a1 now)
   · exact h1
 
+theorem autoRenom_nn {ex : Option Nat} (a : Agent) (now : Nat) : NoNew ex a (a.autoRenom now).1 := by
+  refine IceProofs.Auto.autoRenom_parts (P := fun x => NoNew ex a x.1) ?_ a (NoNew.refl _ _)
+  exact {
+    mark := fun b _ id _ h _ _ => h.trans (NoNew.modPair_keep b id (fun q => { q with state := .inProgress })
+      (fun _ => rfl) (fun _ => rfl) (fun _ h => by cases h))
+    ping := fun b _ l r h _ _ => h.trans (ping_nn b now l r)
+    time := fun _ _ h => h.trans (NoNew.of_eq rfl rfl)
+    count := fun _ _ h => h.trans (NoNew.of_eq rfl rfl)
+    issue := fun b _ l r nom h _ _ _ _ _ => h.trans (sendRequest_nn b now l r true nom)
+    log := fun _ _ _ h => h.trans (NoNew.of_eq rfl rfl) }
+
+theorem valKeepAuto_nn {ex : Option Nat} (a : Agent) (now : Nat) : NoNew ex a (valKeepAuto a now).1 := by
+  unfold valKeepAuto
+  have h1 := validateSelected_nn (ex := ex) a now
+  rcases hv : a.validateSelected now with ⟨a1, o1, ok⟩
+  rw [hv] at h1
+  simp only []
+  split
+  · exact (h1.trans (keepalive_nn a1 now)).trans (autoRenom_nn _ now)
+  · exact h1
+
 theorem contactCandidates_nn {ex : Option Nat} (a : Agent) (now : Nat) :
     NoNew ex a (a.contactCandidates now).1 := by
   unfold Agent.contactCandidates
   split
   · split
-    · exact valKeep_nn a now
+    · exact valKeepAuto_nn a now
     · split
       · exact nominate_nn _ _ _
       · split
@@ -491,7 +512,7 @@ theorem handleSuccess_own (a : Agent) (now : Nat) (m : Msg) (l r : Cand) (src : 
         refine Or.inr ⟨pd, p, rfl, hn, hd, hs, hfp ▸ hfind, ?_⟩
         refine NoNew.trans (NoNew.trans (NoNew.trans h0.weaken
           (NoNew.modPair_ex a1 p.id (hsMark pd) (fun _ => rfl))) ((hsSel_nn _ p pd).trans (hsFin_nn (a1.modPair p.id (hsMark pd)) p pd _))) ?_
-        exact NoNew.modPair_keep _ p.id (fun p => { p with respRecv := p.respRecv + 1 }) (fun _ => rfl)
+        exact NoNew.modPair_keep _ p.id (Pair.gotResponse now pd.ts) (fun _ => rfl)
           (fun _ => rfl) (fun _ h => h)
 
 /-! ## The request handlers validate nothing on a full agent -/
